@@ -30,17 +30,17 @@ type Viol struct {
 
 // Result is the outcome of one case.
 type Result struct {
-	Index      int              `json:"index"`
-	Status     string           `json:"status"` // held | violated | inconclusive
-	NonTrivial bool             `json:"nontrivial"`
-	Key        string           `json:"key,omitempty"` // canonical hash for distinctness
-	Viols      []Viol           `json:"viols,omitempty"`
-	Sum        map[string]int64 `json:"sum,omitempty"`
-	Max        map[string]int64 `json:"max,omitempty"`
+	Index      int                 `json:"index"`
+	Status     string              `json:"status"` // held | violated | inconclusive
+	NonTrivial bool                `json:"nontrivial"`
+	Key        string              `json:"key,omitempty"` // canonical hash for distinctness
+	Viols      []Viol              `json:"viols,omitempty"`
+	Sum        map[string]int64    `json:"sum,omitempty"`
+	Max        map[string]int64    `json:"max,omitempty"`
 	Sets       map[string][]string `json:"sets,omitempty"` // distinct-value counters (hashes)
-	Sample     interface{}      `json:"sample,omitempty"`
-	Note       string           `json:"note,omitempty"`
-	Flavour    string           `json:"flavour,omitempty"`
+	Sample     interface{}         `json:"sample,omitempty"`
+	Note       string              `json:"note,omitempty"`
+	Flavour    string              `json:"flavour,omitempty"`
 }
 
 // Case is the context handed to a check's Run function.
